@@ -73,7 +73,9 @@ def run_ranges(chk, F):
                                     ', '.join(p.get('t', '?').split('::')[-1] for p in f['params']))
             # the modulus cannot exceed the element type
             tmax = {'unsigned short': 65535, 'unsigned char': 255}.get(et)
-            if tmax is not None and tmax < cfg.pmax:
+            if et == 'unsigned long' and spec.get('pmax64'):
+                tmax = spec['pmax64']          # the modulus only has to fit the 64-bit element type
+            if tmax is not None and (tmax < cfg.pmax or et == 'unsigned long'):
                 cfg = absint.Config(spec['modulus'], 2, tmax, reduced_fields=spec.get('reduced_fields', ['element_']),
                                     helpers=spec.get('helpers', {}), modulus_params=spec.get('modulus_params', []))
             else:
@@ -731,6 +733,21 @@ def run_partial_inverse(chk, F):
         ok_c = len(quots) >= 1 and all(dep(q[0], sub) for q in quots)
         chk.ob('E7-partial-inverse', '%s::%s: T is `%s` divided by the gcd' % (cls, f['name'], sub), where, ok_c,
                '' if ok_c else 'quotients by the gcd: %s' % quots, key='E7|%s::%s|quotient' % (cls, f['name']))
+        # (d) the inverse modulo T is carried to the whole range by the partial identity *of T* (1 modulo the primes of
+        # T, 0 modulo the others): the identity of the sub-product given by the caller is 1 also where x is not invertible
+        qlocals = {x['n'] for x in ir.walk(f['body']) if x.get('k') == 'VarDecl' and x.get('init') is not None and
+                   any(y.get('k') in ('BinaryOperator', 'CXXOperatorCallExpr') and y.get('op') == '/' and
+                       mentions(ir.show((y.get('c') or [None])[-1]), res) for y in ir.walk(x['init']))}
+        ids = [x for x in ir.walk(f['body']) if ir.is_call(x) and (ir.call_name(x) or '').endswith(
+            'multiplicative_identity') and ir.call_args(x)]
+        if qlocals and ids:
+            ok_d = all(any(mentions(ir.show(a_), q) for q in qlocals for a_ in ir.call_args(x)) for x in ids)
+            chk.ob('E7-partial-inverse', '%s::%s: the inverse is scaled by the partial identity of T (%s)' % (
+                cls, f['name'], '/'.join(sorted(qlocals))), where, ok_d,
+                '' if ok_d else '`%s`: the identity of the caller\'s sub-product is 1 modulo the primes dividing x as '
+                'well: the value returned is not 0 there' % ir.show([x for x in ids if not any(
+                    mentions(ir.show(a_), q) for q in qlocals for a_ in ir.call_args(x))][0])[:60],
+                key='E7|%s::%s|identity-of-T' % (cls, f['name']))
 
 
 # ------------------------------------------------------------------ CRT idempotents: (Q / p)^(p - 1) mod Q
